@@ -103,12 +103,22 @@ def run_harnesses(crate, hs, jobs=8, mem_gb=24, playback=True):
         cmd = _kani_cmd(["--harness", n, "--exact"] if False else ["--harness", n])
         if playback:
             cmd += ["-Z", "concrete-playback", "--concrete-playback=print"]
+        # own process group, so that a timeout also kills the cbmc grandchildren
+        pp = subprocess.Popen(cmd, cwd=crate, env=env, stdout=subprocess.PIPE, stderr=subprocess.STDOUT, text=True, start_new_session=True)
         try:
-            p2 = subprocess.run(cmd, cwd=crate, env=env, capture_output=True, text=True, timeout=tmo)
-            return n, p2.stdout + "\n" + p2.stderr, False
-        except subprocess.TimeoutExpired as e:
-            so = e.stdout.decode("utf8", "replace") if isinstance(e.stdout, bytes) else (e.stdout or "")
-            return n, so, True
+            so, _ = pp.communicate(timeout=tmo)
+            return n, so, False
+        except subprocess.TimeoutExpired:
+            import signal
+            try:
+                os.killpg(pp.pid, signal.SIGKILL)
+            except Exception:
+                pass
+            try:
+                so, _ = pp.communicate(timeout=10)
+            except Exception:
+                so = ""
+            return n, so or "", True
 
     res = {}
     raw = [build_out[-2000:]]
